@@ -133,7 +133,7 @@ where
     }
 
     fn early_exit(&self) {
-        self.counter().store(self.range.end.into())
+        self.counter().store(self.initial_len())
     }
 }
 
